@@ -192,8 +192,13 @@ def gen_op(rng, r, weights, bad_rate=0.08, max_pool=7, max_rows=9):
                 # a selection that is a subset of the table (same family), or an unrelated table
                 myids = set(int(x) for x in dm._rowid)
                 cands = [j for j, q in enumerate(P) if q._id == dm._id and set(int(x) for x in q._rowid) <= myids]
-                if rng.random() < bad_rate:
+                c_ = rng.random()
+                if c_ < bad_rate:
                     cands = [j for j, q in enumerate(P) if q._id != dm._id] or cands
+                elif c_ < 2.5 * bad_rate:
+                    # a relative that holds rows this table lacks (taken before a shrink / from a sibling): KeyError
+                    cands = [j for j, q in enumerate(P) if q._id == dm._id
+                             and not set(int(x) for x in q._rowid) <= myids] or cands
                 if not cands:
                     continue
                 t2 = rng.choice(cands)
